@@ -60,6 +60,8 @@ fn pr_strategy() -> impl Strategy<Value = PrCase> {
 		3 => 86_400u64..(90 * 86_400),
 		1 => Just(1_000_000_000u64),
 		1 => (1u64..8000).prop_map(|y| y * YEAR as u64),
+		// the largest periods the configuration grammar accepts (their sum does not fit 64 bits)
+		1 => proptest::sample::select(vec![u64::MAX, u64::MAX - 1, u64::MAX / 2 + 1, u64::MAX - 86_400]),
 	];
 	let rel = prop_oneof![
 		2 => (-10 * YEAR)..0i64,
@@ -126,6 +128,12 @@ fn exec_pr(case: &PrCase) -> Outcome {
 		x ^= x >> 7;
 		x ^= x << 17;
 		san.swap(i, (x % (i as u64 + 1)) as usize);
+	}
+	// names of other kinds (URI, e-mail) in front of and between the others: they say nothing about the identifiers
+	if case.perm % 4 == 1 {
+		san.insert(0, GeneralName::Other(6));
+		let mid = san.len() / 2 + 1;
+		san.insert(mid.min(san.len()), GeneralName::Other(1));
 	}
 	let now = std::time::SystemTime::now().duration_since(std::time::UNIX_EPOCH).unwrap().as_secs() as i64;
 	let not_after = now + case.not_after_rel;
@@ -218,17 +226,17 @@ fn exec_pr(case: &PrCase) -> Outcome {
 		}
 	}
 	let e = e_at(t0);
-	let mut classes = vec![format!("san={}", case.san_mode), format!("missing={}", case.missing), format!("linked={}", if case.linked.is_empty() { "no" } else { &case.linked }), format!("after-the-certificate={}", if case.tail.is_empty() { "nothing" } else { &case.tail })];
+	let mut classes = vec![format!("san={}", case.san_mode), format!("missing={}", case.missing), format!("linked={}", if case.linked.is_empty() { "no" } else { &case.linked }), format!("after-the-certificate={}", if case.tail.is_empty() { "nothing" } else { &case.tail }), format!("uri-and-email-san={}", case.perm % 4 == 1)];
 	if case.not_after_rel < 0 {
 		classes.push("expired".into());
 	}
 	if case.not_after_rel > 67 * YEAR {
 		classes.push("beyond-2^31-seconds".into());
 	}
-	if (case.not_after_rel - case.renew_delay as i64).abs() <= 1 {
+	if (case.not_after_rel as i128 - case.renew_delay as i128).abs() <= 1 {
 		classes.push("boundary+-1s".into());
 	}
-	if case.renew_delay as i64 >= case.not_after_rel && case.not_after_rel > 0 {
+	if case.renew_delay as i128 >= case.not_after_rel as i128 && case.not_after_rel > 0 {
 		classes.push("delay>=lifetime".into());
 	}
 	if vals.len() >= 100 && !must_renew_now {
@@ -356,7 +364,7 @@ fn exec_bb(case: &BbCase) -> Outcome {
 }
 
 pub fn run(ctx: &Ctx, rep: &mut Report) {
-	rep.rule = "pr: (certificate on disk, key file, configuration) triples: notAfter from -10 years to +7900 years around the call incl. +-1 s around now+renew_delay and beyond 2^31 s; SAN = configured identifiers permuted / superset / strict subset / disjoint (1..5 identifiers: wildcard, IDN, IPv4, IPv6); renew_delay and random_early_renew in {0, 1 s, ..., larger than the lifetime, 1e9 s, thousands of years}; either file absent; the certificate followed in its file by nothing, its issuer, a block cut in the middle or a line of text; certificate file, key file, both or the directory reached through a symbolic link (1 case in 2.5); 1 or 200 evaluations. Oracle on the duration D returned by the daemon's scheduling decision with wall clock t0/t1 around the call: missing file or identifier => D = 0; else E(t) = max(0, notAfter - t - renew_delay): D <= E(t0)+1 and D >= E(t1)-R-1; 200 evaluations spread over every third of the jitter range, equal when R = 0; never a crash or error. bb: mock CA issues certificates valid L in 3..6 s (in half of the cases next to 1..2 other certificates of the same account and endpoint whose files are valid for 90 days and which must only wait), renew_delay 0..7 s, jitter 0..2 s: the second newOrder arrives within [L-d-R-1.2 s, max(L-d,0)+2.5 s] after issuance. Non-trivial = all identifiers covered and E > 0.".into();
+	rep.rule = "pr: (certificate on disk, key file, configuration) triples: notAfter from -10 years to +7900 years around the call incl. +-1 s around now+renew_delay and beyond 2^31 s; SAN = configured identifiers permuted / superset / strict subset / disjoint, in a quarter of the cases with a URI and an e-mail entry in front of and between them (1..5 identifiers: wildcard, IDN, IPv4, IPv6); renew_delay and random_early_renew in {0, 1 s, ..., larger than the lifetime, 1e9 s, thousands of years, 2^64-1 s}; either file absent; the certificate followed in its file by nothing, its issuer, a block cut in the middle or a line of text; certificate file, key file, both or the directory reached through a symbolic link (1 case in 2.5); 1 or 200 evaluations. Oracle on the duration D returned by the daemon's scheduling decision with wall clock t0/t1 around the call: missing file or identifier => D = 0; else E(t) = max(0, notAfter - t - renew_delay): D <= E(t0)+1 and D >= E(t1)-R-1; 200 evaluations spread over every third of the jitter range, equal when R = 0; never a crash or error. bb: mock CA issues certificates valid L in 3..6 s (in half of the cases next to 1..2 other certificates of the same account and endpoint whose files are valid for 90 days and which must only wait), renew_delay 0..7 s, jitter 0..2 s: the second newOrder arrives within [L-d-R-1.2 s, max(L-d,0)+2.5 s] after issuance. Non-trivial = all identifiers covered and E > 0.".into();
 	run_replays::<PrCase>(ctx, rep, "pr", &exec_pr);
 	run_replays::<BbCase>(ctx, rep, "bb", &exec_bb);
 	if ctx.replay.is_some() {
